@@ -74,6 +74,7 @@ func run(db, script string) int {
 	os.Stdout.Write([]byte("OPENED\n"))
 	ctx := context.Background()
 	acks := map[int]string{}
+	var stB *sqlite.SQLiteStore
 	for i, op := range ops {
 		switch op.Kind {
 		case "append":
@@ -105,6 +106,24 @@ func run(db, script string) int {
 				continue
 			}
 			ack(i, strconv.Itoa(len(evs)))
+		case "open-b":
+			// a second handle on the same file (another component of the process); it stays idle
+			if stB == nil {
+				b, err := sqlite.New(db)
+				if err != nil {
+					os.Stdout.Write([]byte(fmt.Sprintf("NACK %d open second handle: %v\n", i, err)))
+					continue
+				}
+				stB = b
+			}
+			ack(i, "second-handle")
+		case "close-b":
+			// ... and is closed cleanly while the first handle keeps being used
+			if stB != nil {
+				stB.Close()
+				stB = nil
+			}
+			ack(i, "second-handle-closed")
 		case "close-reopen":
 			if err := st.Close(); err != nil {
 				os.Stdout.Write([]byte(fmt.Sprintf("NACK %d close: %v\n", i, err)))
